@@ -29,6 +29,11 @@ MAT_FIELDS = ['aa', 'ab', 'ac', 'ba', 'bb', 'bc', 'ca', 'cb', 'cc']
 VEC_FIELDS = ['x', 'y', 'z']
 ANG_FIELDS = ['pitch', 'yaw', 'roll']
 MATH_FUNCS = {'cos', 'sin', 'radians', 'degrees', 'sqrt'}
+# Tolerant mode (round 5, used for Gen/RotReified_gen.v only, when the strict extraction has failed closed): a math function the
+# formula model has no meaning for (asin, acos, atan, hypot ...) is kept as an opaque node, and an angle component that is not
+# degrees(atan2(..)) % 360 is recorded as `other`; the reified component then is COther and the NAMED obligation about it
+# (pitch_ok) is false, instead of only `translate:RotFormulas_gen` failing closed.
+_TOLERANT = [False]
 
 
 # =============================================================================================== control-flow paths
@@ -91,7 +96,7 @@ class FormulaExec:
     def num(self, v: Any):
         if isinstance(v, tuple) and v and v[0] == 'param':
             return ('var', v[1])
-        if not (isinstance(v, tuple) and v and v[0] in ('var', 'num', 'neg', 'add', 'sub', 'mul', 'div', 'pow', 'call', 'atan2', 'mod')):
+        if not (isinstance(v, tuple) and v and v[0] in ('var', 'num', 'neg', 'add', 'sub', 'mul', 'div', 'pow', 'call', 'atan2', 'mod', 'opaque')):
             raise TranslateError(f'{self.where}: expected an arithmetic value, got {v!r}')
         return v
 
@@ -155,6 +160,8 @@ class FormulaExec:
                     return ('call', f.attr, self.num(self.ev(n.args[0])))
                 if f.attr == 'atan2' and len(n.args) == 2:
                     return ('atan2', self.num(self.ev(n.args[0])), self.num(self.ev(n.args[1])))
+                if _TOLERANT[0] and 1 <= len(n.args) <= 2:
+                    return ('opaque', f.attr) + tuple(self.num(self.ev(a)) for a in n.args)
                 self.err(n, 'unsupported math function')
             if isinstance(f, ast.Attribute) and f.attr == '__new__' and len(n.args) == 1:
                 c = self.ev(f.value)
@@ -526,6 +533,8 @@ def extract_formulas(C: Classes) -> dict[str, Any]:
                 for sub in (e[2][1], e[2][2]):
                     coq_expr(sub)    # must be pure arithmetic
                 comps[f] = ('atan2', e[2][1], e[2][2], nmod)
+            elif _TOLERANT[0]:
+                comps[f] = ('other', e, nmod)
             else:
                 raise TranslateError(f'_to_angle: {f} is not degrees(atan2(..)) % 360 or a constant')
         ta['main' if taken else 'lock'] = comps
@@ -671,6 +680,8 @@ def reified_coq(F: dict[str, Any]) -> tuple[str, dict]:
             if c[0] == 'const':
                 fr = Fraction(repr(c[1])) if isinstance(c[1], float) else Fraction(c[1])
                 return f'CConst ({fr.numerator}#{fr.denominator})%Q' if fr.numerator >= 0 else f'CConst (({fr.numerator})#{fr.denominator})%Q'
+            if c[0] != 'atan2':
+                return 'COther'
             return f'CAtan2 {gexpr(c[1])} {gexpr(c[2])}'
         except TranslateError:
             return 'COther'
@@ -1084,7 +1095,17 @@ def translate_dispatch() -> tuple[str, dict]:
 
 
 def translate_reified() -> tuple[str, dict]:
-    return reified_coq(analyse()['F'])
+    try:
+        F = analyse()['F']
+    except TranslateError:
+        # the formula model cannot express today's code: read the decisive pieces anyway (see _TOLERANT)
+        _TOLERANT[0] = True
+        try:
+            tree = ast.parse(src_text('math.py'))
+            F = extract_formulas(Classes(tree))
+        finally:
+            _TOLERANT[0] = False
+    return reified_coq(F)
 
 
 GEN = {'RotFormulas_gen': translate_formulas, 'RotDispatch_gen': translate_dispatch, 'RotReified_gen': translate_reified}
